@@ -35,6 +35,22 @@ def run(ck: Check) -> None:
             ts, ex = rng.choice([("2020-07-13T05:46:45Z", "2020-07-13T05:46:45Z"), ("2021-01-01T00:00:00Z", "2020-01-01T00:00:00Z"), ("9999-12-31T23:59:59Z", "0001-01-01T00:00:00Z"),
                                  ("2020-1-1T1:1:1Z", "2019-1-1T1:1:1Z"), ("2020-02-29T12:00:00Z", "2000-02-29T00:00:00Z")])
             signed["timestamp"], signed["expiration"] = ts, ex
+        # every shape the schema allows is typed: optional members absent (version without timestamp, timestamp without version for non-root),
+        # unknown extra members, members in another order, numbers spelled as bools
+        shape = i % 7
+        if shape == 2:
+            signed.pop("timestamp", None)
+        elif shape == 4 and T != "root":
+            signed.pop("version", None)
+        elif shape == 5:
+            signed[rng.choice(["note", "extra", "Type", "é"])] = rng.choice([None, 1, "x", [], {"a": 1}])
+        elif shape == 6:
+            if signed.get("version") == 1:
+                signed["version"] = True
+            items = list(signed.items())
+            rng.shuffle(items)
+            signed = dict(items)
+        ck.count("typed-shape:%d" % shape)
         u = gen.sign_env(gen.envelope(signed), ks, gpg, rng)
         variants = [("plain", u)]
         for _ in range(3):
